@@ -68,6 +68,46 @@ class RTMod(symstr.SymStr):
                         return [(hirai.PANIC, ("Vec::remove out of bounds", n.get("sp") if isinstance(n, dict) else ""), st)]
                     x = items.pop(i[1])
                     return [(OK, x, I.write(st, place, ("abs", "svec", tuple(items))))]
+            if callee in ("alloc::slice::<impl [T]>::sort_by", "core::slice::<impl [T]>::sort_by"):
+                # stable insertion sort driven by the comparator closure
+                LESS = "core::cmp::Ordering::Less"
+
+                def ins(sorted_items, rest, s):
+                    if not rest:
+                        return [(OK, hirai.UNIT, I.write(s, place, ("abs", "svec", tuple(sorted_items))))]
+                    x = rest[0]
+
+                    def place_at(pos, s2):
+                        # find first position (from the right) where x is not less than the element before it
+                        if pos == 0:
+                            return ins([x] + sorted_items, rest[1:], s2)
+                        s3, pa = I.newtemp(s2, x)
+                        s3, pb = I.newtemp(s3, sorted_items[pos - 1])
+                        out = []
+                        for ctl, r, s4 in I.apply(args[1], [("ref", pa), ("ref", pb)], s3, n):
+                            r = I.deref_val(s4, r)
+                            if ctl != OK or r[0] != "enum":
+                                out.append((OK, hirai.unk("sort"), s4))
+                            elif r[1] == LESS:
+                                out.extend(place_at(pos - 1, s4))
+                            else:
+                                out.extend(ins(sorted_items[:pos] + [x] + sorted_items[pos:], rest[1:], s4))
+                        return out
+                    return place_at(len(sorted_items), s)
+                return ins([], items, st)
+            if callee in ("<alloc::vec::Vec<T, A> as core::iter::traits::collect::Extend<T>>::extend", "core::iter::traits::collect::Extend::extend"):
+                src = I.deref_val(st, args[1])
+                if src[0] == "abs" and src[1] in ("siter", "svec"):
+                    more = list(src[2][src[3]:]) if src[1] == "siter" else list(src[2])
+                    return [(OK, hirai.UNIT, I.write(st, place, ("abs", "svec", tuple(items + more))))]
+                if hasattr(self, "drain") and src[0] == "abs":
+                    out = []
+                    for more, s2 in self.drain(I, st, src, n):
+                        if more is None:
+                            out.append((OK, hirai.unk("extend"), s2))
+                        else:
+                            out.append((OK, hirai.UNIT, I.write(s2, place, ("abs", "svec", tuple(items + more)))))
+                    return out
             if callee in ("core::slice::<impl [T]>::first", "core::slice::<impl [T]>::last"):
                 if not items:
                     return [(OK, none(), st)]
@@ -81,6 +121,8 @@ class RTMod(symstr.SymStr):
                 return [(OK, ("bool", len(a0[2]) == 0), st)]
             if callee.endswith("::len"):
                 return [(OK, hirai.mkint(len(a0[2])), st)]
+        if a0 is not None and a0[0] == "abs" and a0[1] == "siter" and callee == "core::iter::traits::iterator::Iterator::enumerate":
+            return [(OK, ("abs", "siter", tuple(("tuple", (hirai.mkint(i), x)) for i, x in enumerate(a0[2][a0[3]:])), 0), st)]
         if a0 is not None and a0[0] == "abs" and a0[1] == "siter" and callee == "core::iter::traits::iterator::Iterator::map":
             items = a0[2][a0[3]:]
 
